@@ -111,6 +111,10 @@ def chk_rejections(hrp, ver, plen, salt, case_blocks=False):
                 if t != good and t != good.upper():
                     must_refuse(t, "mixed-case:block")
     must_refuse(good, "other-prefix", "tb" if hrp == "bc" else "bc")
+    # an address whose REAL prefix merely starts with / contains the expected one
+    for other in (hrp + "1x", hrp + "1", hrp + "c", "x" + hrp, hrp[:-1], hrp + "1" + hrp):
+        if other and other != hrp:
+            must_refuse(enc.segwit_encode(other, ver, pr), "prefix-extension", hrp)
     other = enc.BECH32M_CONST if ver == 0 else enc.BECH32_CONST
     must_refuse(enc.segwit_encode(hrp, ver, pr, const=other), "wrong-checksum-constant")
     d5 = enc.to5(pr)
@@ -304,8 +308,25 @@ def chk_helpers(witver, testnet, salt):
     return n, viols
 
 
+def _ev_hrp(i):
+    return "bc" if i == 0 else "tb" if i == 1 else "p" + "".join(CS[(i >> s) & 31] for s in (0, 5, 10)).rstrip("q") + "z"
+
+
+def _ev_judge(i):
+    h = _ev_hrp(i)
+    return chk_grid(h, 1 if i % 2 else 0, 32 if i % 3 else 20, "mix", i)[1] + ([] if refused("tb" if h != "tb" else "bc", enc.segwit_encode(h, 0, prog(20, "mix", i))) else
+                                                                               [V(P + ":decode:other-prefix:accepted", "address of prefix %r accepted for another prefix" % h)])
+
+
 def execute(case):
-    k = case["k"]
+    k = case.get("k")
+    if "hist" in case:
+        from ..core import isolated
+        from ..bfs import PureCalls
+        r = isolated(PureCalls(10**6, _ev_judge, P).run, case["hist"])
+        for v in r["viols"]:
+            v["case"] = case
+        return R(r["label"], viols=r["viols"])
     if k == "helpers":
         n, vs = chk_helpers(case["witver"], case["testnet"], case.get("salt", 0))
         return R("violation" if vs else "helper-agrees", viols=vs, n=n)
@@ -516,6 +537,8 @@ def run(ctx):
         legal = [(v, n) for v, n in legal if v in (0, 1, 2, 15, 16) or n in (2, 20, 32, 40)]
     ctx.product("rejection-grammar", [{"k": "rej", "hrp": h, "ver": v, "plen": n, "salt": salt, "blocks": (v, n) in ((0, 20), (1, 32)) or ctx.thorough and (v, n) in shapes()}
                                       for h in ("bc", "tb") for v, n in legal], execute)
+    from ..bfs import eviction_probe, PureCalls
+    eviction_probe(ctx, "prefix-revisits", PureCalls(10**6, _ev_judge, P), lambda i: i)
     e5 = syndrome_engine(ctx)
     cases = []
     for ver, plen in shapes():
